@@ -139,7 +139,7 @@ def corpus_sets():
 
 MISTAKES = ["dup_pub_fn", "dup_pub_const", "dup_pub_struct", "type_error_in_importer", "error_in_imported",
             "unresolved_import", "syntax_error", "undefined_in_two_modules", "cyclic_consts", "cyclic_structs",
-            "cyclic_struct_const", "multibyte_then_error", "triple_duplicate", "lints_in_two_files", "hex_separator_then_error", "deep_nesting", "lexical_error_in_name_position", "skipped_declarations", "long_line_then_error", "same_pub_fn_in_two_modules", "long_type_name", "same_missing_member_twice"]
+            "cyclic_struct_const", "multibyte_then_error", "triple_duplicate", "lints_in_two_files", "hex_separator_then_error", "deep_nesting", "lexical_error_in_name_position", "skipped_declarations", "long_line_then_error", "same_pub_fn_in_two_modules", "long_type_name", "same_missing_member_twice", "illegal_return_type_in_imported"]
 
 
 def generated_set(seed, i):
@@ -245,6 +245,12 @@ def generated_set(seed, i):
             b = rng.randrange(sp.k)
             files[sp.files[b]] += ("\nstruct ZzRenamed\n{\n\tcount: i32,\n}\n\nfn zz_uses(r: ZzRenamed) -> i32\n{\n\tvar a = r.total;\n\tvar b = r.total + 1;\n"
                                    "\tvar c = r.totl;\n\treturn: r.total\n}\n")
+        elif m == "illegal_return_type_in_imported":
+            # an error in the head of an imported function: found while the importer is compiled, located in the imported file
+            b = rng.choice(tgts)
+            files[sp.files[b]] += "\npub fn zz_table(n: i32) -> [4]i32\n{\n\tvar t: [4]i32 = [n, n, n, n];\n\treturn: t\n}\n"
+            if names and names[0] == sp.files[b] and len(names) > 1:
+                names.append(names.pop(0))      # the importer first
         elif m == "triple_duplicate":
             b = rng.randrange(sp.k)
             files[sp.files[b]] += ("\nfn zz_tri()\n{\n}\n\nfn zz_tri()\n{\n}\n\nfn zz_tri()\n{\n}\n\nconst ZZ_TRI: i32 = 1;\nconst ZZ_TRI: i32 = 2;\nconst ZZ_TRI: i32 = 3;\n"
@@ -255,8 +261,8 @@ def generated_set(seed, i):
                 files[sp.files[b]] += "\nfn zz_undef%d() -> i32\n{\n\treturn: missing_thing_%d\n}\n" % (b, b)
     if rng.random() < 0.3:
         rng.shuffle(names)
-    if rng.random() < 0.12:
-        # the same file given twice on the command line
+    if rng.random() < (0.12 if mistakes else 0.4):
+        # the same file given twice on the command line (more often when nothing else is wrong with the set)
         names.insert(rng.randrange(len(names) + 1), rng.choice(names))
         mistakes.append("duplicate_argument")
     enc = {k: v.encode() for k, v in files.items()}
@@ -749,6 +755,14 @@ def evaluate_set(s, wd, cfg, rng, stats):
     if not panicked and base_r.rc == 1 and not base_heads and not base_r.timeout and \
             (b"Error: " not in base_r.err or b"Error: compilation failed" in base_r.err):
         viol.append(("failure_without_code", "exit 1 and no diagnostic with a code on stderr: %r" % base_r.err.decode(errors="replace")[-300:], {}))
+    if len(set(order)) < len(order) and not panicked:
+        # a file given twice: with --out-dir the second artefact is refused first; without it the
+        # modules go all the way to the linker
+        clock, pid = sim_params()
+        r2, _ = one_run(wd, order, seeds[0], clock, pid, base_opts, out_dir=False)
+        stats["runs"] += 1
+        if r2.rc == 1 and not headers_of(r2) and (b"Error: " not in r2.err or b"Error: compilation failed" in r2.err):
+            viol.append(("failure_without_code", "without --out-dir: exit 1 and no diagnostic with a code on stderr: %r" % r2.err.decode(errors="replace")[-300:], {}))
     # rendering must find every source it quotes
     for r in [x[3] for x in obs[:1]]:
         if b"Unable to fetch source" in r.err:
